@@ -33,6 +33,17 @@ Theorem C02_if_flatten_preserves :
 Proof. exact if_flatten_preserves. Qed.
 Print Assumptions C02_if_flatten_preserves.
 
+(* the hypothesis wf_block cannot be dropped: with a source variable named _old0 the model's (and
+   Polar's, see the capture probe of harness/pass_if.py) output changes E(y) from 7 to 0 *)
+Theorem C02_if_flatten_without_wf_refuted :
+  exists (k : nat) (b : block) (l : list gassign) (k' : nat) (s : state) (f : state -> Qc),
+    if_flatten k b = Some (l, k') /\
+    (forall s' t' : state, (forall x, is_gen x = false -> t' x = s' x) -> f t' = f s') /\
+    (forall x, is_gen x = false -> s x = s x) /\
+    E (exec_gas no_law l s) f <> E (exec_block no_law b s) f.
+Proof. exact if_flatten_without_wf_refuted. Qed.
+Print Assumptions C02_if_flatten_without_wf_refuted.
+
 (* ---- non-vacuity: if a==0: y=1 elif b==0: y=2 else: a=5 end ---- *)
 Definition c_a0 := CAtom (EVar "a") Ceq (EConst (mkq 0 1)).
 Definition c_b0 := CAtom (EVar "b") Ceq (EConst (mkq 0 1)).
